@@ -73,9 +73,35 @@ def run_concrete_cases(prop, items):
 
 
 def model_inputs(model_text, mapping):
-    """Extract concrete parameter values from a solver model (text 'name!k = value' lines)."""
+    """Extract concrete parameter values from a solver model (text 'name!k = value' lines, or the structured small model appended by the
+    prover after '#PYVC-SMALL').  mapping: input key -> parameter name, or ('const', value), or ('array', parameter name)."""
     if not model_text:
         return None
+    if '#PYVC-SMALL ' in model_text:
+        try:
+            sm = json.loads(model_text.split('#PYVC-SMALL ', 1)[1])
+        except ValueError:
+            sm = None
+        if sm is not None:
+            inp = {}
+            for k, src in mapping.items():
+                if isinstance(src, (tuple, list)) and src[0] == 'const':
+                    inp[k] = src[1]
+                elif isinstance(src, (tuple, list)) and src[0] == 'array':
+                    if src[1] not in sm['arrays']:
+                        return None
+                    inp[k] = sm['arrays'][src[1]]
+                elif isinstance(src, (tuple, list)) and src[0] == 'len':
+                    if src[1] not in sm['arrays']:
+                        return None
+                    inp[k] = len(sm['arrays'][src[1]])
+                elif src in sm['ints']:
+                    inp[k] = sm['ints'][src]
+                elif src in sm['bools']:
+                    inp[k] = sm['bools'][src]
+                else:
+                    return None
+            return inp
     vals = {}
     for m in re.finditer(r'([A-Za-z_][\w\.]*)!\d+ = (-?\d+|\(- \d+\)|True|False)', model_text):
         n, v = m.group(1), m.group(2)
